@@ -207,7 +207,11 @@ def check_c06(tier):
                 V.violation(ex, "after an edit history answers differ from a server started fresh on the latest valid contents (not predicted by the model)")
         if res["id"] % 1500 == 0:
             V.sample({"hist": hist, "okOrder": case["okOrder"], "queries": nq})
-    cov = {"states": meta["distinct"], "transitions": meta["transitions"], "traces_validated_against_impl": replayed,
+    # B2: seeded random histories beyond the exhaustive bound, validated by TLC against HistoryTrace.tla
+    import tracecheck
+    n_ev = tracecheck.validate_random_histories(V, 150 if tier == "quick" else 3000, 12 if tier == "quick" else 16, "c06")
+    V.count(n_ev)
+    cov = {"states": meta["distinct"], "transitions": meta["transitions"], "traces_validated_against_impl": replayed + n_ev,
            "tlc": {"module": "History", "cfg": cfg, "wall_s": meta["wall_s"], "cached": meta.get("cached", False)},
            "exhaustive": True}
     return V.finish(
@@ -341,6 +345,10 @@ def check_c07(tier):
     if not V.samples:
         V.sample({"note": "see rule"})
     shutil.rmtree(root, ignore_errors=True)
+    import tracecheck
+    n_ev = tracecheck.validate_random_histories(V, 150 if tier == "quick" else 3000, 14 if tier == "quick" else 18, "c07")
+    V.count(n_ev)
+    replayed += n_ev
     cov = {"states": meta["distinct"], "transitions": meta["transitions"], "traces_validated_against_impl": replayed,
            "tlc": {"module": "History", "cfg": cfg, "wall_s": meta["wall_s"], "cached": meta.get("cached", False)},
            "exhaustive": True}
